@@ -259,6 +259,29 @@ func famHasDecidedConflicts(s *gram.Spec) bool {
 	return !t.ConflictFree && t.AllJudged()
 }
 
+// precOnOneLine writes consecutive precedence directives of a rendered specification on one physical
+// line (`%left '+' %left '*' %right TU`): yacc input is free-format, the levels are counted per directive.
+func precOnOneLine(text string) string {
+	isPrec := func(l string) bool {
+		for _, d := range []string{"%left", "%right", "%nonassoc", "%precedence"} {
+			if strings.HasPrefix(l, d) {
+				return true
+			}
+		}
+		return false
+	}
+	lines := strings.Split(text, "\n")
+	var out []string
+	for i, l := range lines {
+		if i > 0 && isPrec(l) && isPrec(lines[i-1]) {
+			out[len(out)-1] += " " + l
+			continue
+		}
+		out = append(out, l)
+	}
+	return strings.Join(out, "\n")
+}
+
 func c04OneCellCase(w *Worker, c *GCase) {
 	w.Count("evaluations", 1)
 	g := ref.FromSpec(c.Spec)
@@ -266,6 +289,11 @@ func c04OneCellCase(w *Worker, c *GCase) {
 		return
 	}
 	text := c.Spec.Render()
+	if len(c.Spec.Prec) > 1 && w.Out.Counters["evaluations"]%2 == 0 {
+		// every second decorated grammar with the precedence directives on one physical line
+		text = precOnOneLine(text)
+		w.Count("precedence_directives_on_one_line", 1)
+	}
 	res := ygo.Build(text, ygo.Options{Fuel: buildFuel})
 	if !res.OK() {
 		w.Count("skipped_yaccgo_refused_usable_grammar", 1)
@@ -573,6 +601,9 @@ func c04OneTable(w *Worker, c *GCase) {
 	g := ref.FromSpec(c.Spec)
 	text := c.Spec.Render()
 	key := "optable " + string(c.Extra)
+	if w.Out.Counters["operator_tables"]%2 == 0 {
+		text = precOnOneLine(text) // every second operator table with all its levels on one physical line
+	}
 	res := ygo.Build(text, ygo.Options{Fuel: buildFuel})
 	if !res.OK() {
 		w.Violate("C04|optable-refused|"+key, "operator grammar refused: "+res.Diag(), c, map[string]interface{}{"grammar_text": text})
